@@ -5,6 +5,8 @@ import RavenModel.Model.Flags
 import RavenModel.Model.Mail
 import RavenModel.Model.Lmtp
 import RavenModel.Model.Policy
+import RavenModel.Model.Auth
+import RavenModel.Model.AuthJson
 /-! Line protocol: one op per line (`op arg …`, byte-string args hex encoded, `-` = empty, `.` = empty list),
 one canonical line out. Stateful ops (`m.*`) act on the driver's mailbox-machine state. -/
 open Raven
@@ -93,6 +95,28 @@ def opsC17 : List String → Option String
       | some (.role a) => "role:" ++ hexOut a
       | some (.user l d) => "user:" ++ hexOut l ++ "@" ++ hexOut d)
   | ["p.size", mx, sz] => some (boolS (Policy.sizeOk ⟨[], false, 0, mx.toNat!, false, 0, []⟩ sz.toNat!))
+  | _ => none
+
+def utf8Chars (b : Bytes) : Option (List Char) := (String.fromUTF8? (ByteArray.mk b.toArray)).map String.toList
+
+/-- authentication: `a.body user dom pw` = the request body (hex) or `refuse` for names / passwords that are not admitted -/
+def opsC04 : List String → Option String
+  | ["a.body", user, dom, pw] =>
+    let u := unhex user
+    if !Auth.admissible u then some "refuse" else
+    match utf8Chars (Auth.emailFor u (unhex dom)), utf8Chars (unhex pw) with
+    | some e, some p => some (hexOut (String.ofList (Json.mkBody e p)).toUTF8.toList)
+    | _, _ => some "refuse"
+  | ["a.sbody", user, dom, pw] =>   -- SASL: no binding, hence no restriction on the number of `@`; control characters refused
+    let u := unhex user
+    if u.any Auth.isCtl then some "refuse" else
+    match utf8Chars (Auth.emailFor u (unhex dom)), utf8Chars (unhex pw) with
+    | some e, some p => some (hexOut (String.ofList (Json.mkBody e p)).toUTF8.toList)
+    | _, _ => some "refuse"
+  | ["a.bind", user, dom] => let (l, d) := Auth.bind (unhex user) (unhex dom); some (hexOut l ++ " " ++ hexOut d)
+  | ["a.plain", dec] => some (match Auth.plainSplit (unhex dec) with | some (u, p) => hexOut u ++ " " ++ hexOut p | none => "none")
+  | ["a.okline", id, user] => some (hexOut (Auth.okLine (unhex id) (unhex user)))
+  | ["a.ctl", user] => some (boolS ((unhex user).any Auth.isCtl))
   | _ => none
 
 /-! mailbox machine -/
@@ -188,7 +212,7 @@ def step (st : Mail.Store) (line : String) : Mail.Store × String :=
   match opsMail st args with
   | some r => r
   | none =>
-    match (opsC18 args <|> opsC09 args <|> opsC10 args <|> opsC16 args <|> opsC17 args) with
+    match (opsC18 args <|> opsC09 args <|> opsC10 args <|> opsC16 args <|> opsC17 args <|> opsC04 args) with
     | some r => (st, r)
     | none => (st, "bad-op")
 
